@@ -400,13 +400,13 @@ func c01GenECAL(g *Gen, emit func(c *c01Case, what string)) {
 						kvs[k].key = []string{"!1", "!2", "1"}[g.R.Intn(3)]
 					}
 				}
-				// one entry per key
+				// one entry per key text (1 and "1" in one statematch collapse in map order: not comparable)
 				seen := map[string]bool{}
 				for k := 0; k < len(kvs); k++ {
-					if seen[kvs[k].key] {
+					if seen[strings.TrimPrefix(kvs[k].key, "!")] {
 						kvs[k].key = fmt.Sprintf("u%d", k)
 					}
-					seen[kvs[k].key] = true
+					seen[strings.TrimPrefix(kvs[k].key, "!")] = true
 				}
 			}
 			for j := range c.rules {
